@@ -136,7 +136,7 @@ def run_program(rec, hub, seed_rng, steps, letters="abcd", ill_rate=0.3, props=(
             l = ls[int(rng.integers(0, len(ls)))] if not ill else "q"
             if c == "cumsum":
                 return (f"cumsum {l}", None, [lambda: x.cumsum(l)])
-            return (f"cumsum inplace {l}", x, [lambda: x.cumsum(l, inplace=True)])
+            return (f"cumsum inplace {l}", x, [(lambda: x.cumsum(l, inplace=True)) if rng.random() < 0.5 else (lambda: x.cumsum(l, True))])
         if kind in ("read", "write"):
             assign = tuple(rng.choice(idx.KINDS_WRITE if kind == "write" else idx.KINDS_READ) for _ in ls)
             key = idx.build_key(fd, U, ls, assign, rng, rng.choice(["id", "rand"]), rng.choice(["letter", "name", "mixed", "tuple"])) if ls else Ellipsis
@@ -200,6 +200,10 @@ def run_program(rec, hub, seed_rng, steps, letters="abcd", ill_rate=0.3, props=(
                 return ("sign inplace", x, [lambda: x.sign(inplace=True)])
             if c == 2:
                 return ("apply sqrt(abs)", None, [lambda: x.apply(lambda v: np.sqrt(np.abs(v)))])
+            if rng.random() < 0.4:
+                return ("apply round, arguments by position", None, [lambda: x.apply(np.round, {"decimals": 1})])
+            if rng.random() < 0.3:
+                return ("apply clip inplace, arguments by position", x, [lambda: x.apply(np.clip, {"a_min": 0.0, "a_max": None}, True)])
             return ("apply inplace *2", x, [lambda: x.apply(lambda v: v * 2, inplace=True)])
         if kind == "stock":
             sl = ("t",) + tuple(l for l in rand_letters() if l != "t")[:2]
